@@ -659,6 +659,10 @@ class LMDBStorage(BaseStorage):
         ):
             raise AuthenticationError("restricted: permission denied")
 
+        if not (0 <= event.created_at < 2**32 and 0 <= event.kind < 2**32):
+            # the index keys hold created_at and kind as 4 bytes: the writer could not store it
+            raise StorageError("invalid: created_at or kind out of range")
+
         if not event.is_ephemeral:
             with self.db.begin(buffers=True) as txn:
                 if get_event_data(txn, event.id_bytes):
